@@ -117,7 +117,7 @@ def opt_of(argv, idx):
 def value_ok(name, value):
     """must the option `name` with this value be accepted?  False = our reading calls it unknown / malformed (it must not
     return normally).  Lenient where the help text is silent: -O accepts whatever is not a plain decimal outside 0..3
-    (Python's int() also reads ' 1', '0_1', non-ASCII digits), -o/-t/--dump-prefix accept anything without '.'."""
+    (Python's int() also reads ' 1', '0_1', non-ASCII digits), -o/--dump-prefix accept anything without '.'; -t takes no value."""
     if name in ('o', 'output'):
         return '.' not in value
     if name == 'O':
@@ -126,10 +126,15 @@ def value_ok(name, value):
     if name == 'f':
         return flag_known(value[3:] if value.startswith('no-') else value)
     if name == 'flag':
-        return value.count('=') <= 1 and flag_known(value.split('=')[0])
+        # --flag NAME or --flag NAME=VALUE with VALUE one of the on/off spellings; any other value is malformed (it used to mean "off")
+        if value.count('=') > 1 or not flag_known(value.split('=')[0]):
+            return False
+        return '=' not in value or value.split('=')[1] in ('yes', 'on', 'true', '1', 'no', 'off', 'false', '0')
     if name in ('d', 'dump'):
         return all_dumpable(value)
-    if name in ('t', 'dry-run', 'dump-prefix'):
+    if name == 't':
+        return value == ''                            # -t takes no value: trailing text is a mistyped option
+    if name in ('dry-run', 'dump-prefix'):
         return True
     if name in OPTIONNAMES:
         return True
